@@ -62,6 +62,57 @@ def forward (env : Env) (i : Nat) (req : Bytes) : CallRes Bytes :=
   | none => .connErr
   | some resp => .ok resp
 
+/-! ### smartcard keys: `client.AddSmartcardKey` / `RemoveSmartcardKey`
+
+The server does not interpret these codes: the request reaches the served agent's `Forward` as it
+is, and the first byte of its reply decides the result. -/
+
+/-- lifetime and confirm constraints as the client encodes them: a lifetime constraint (code 1 and
+    the seconds, big-endian) iff the lifetime is not zero — `secs` is the whole seconds of the
+    duration —, then the confirm constraint (code 2) iff asked for -/
+def smartcardConstraints (lifetimeNonZero : Bool) (secs : Nat) (confirm : Bool) : Bytes :=
+  (if lifetimeNonZero then 1 :: be32 secs else []) ++ (if confirm then [2] else [])
+
+def encAddSmartcard (id pin : Bytes) (lifetimeNonZero : Bool) (secs : Nat) (confirm : Bool) : Bytes :=
+  26 :: (putString id ++ putString pin ++ smartcardConstraints lifetimeNonZero secs confirm)
+
+def encRemoveSmartcard (id pin : Bytes) : Bytes := 21 :: (putString id ++ putString pin)
+
+/-- what the served agent reads back from an add-smartcard-key request -/
+def decAddSmartcard : Bytes → Option (Bytes × Bytes × Bytes)
+  | 26 :: r =>
+    match getString r with
+    | some (id, r1) =>
+      match getString r1 with
+      | some (pin, cs) => some (id, pin, cs)
+      | none => none
+    | none => none
+  | _ => none
+
+def decRemoveSmartcard : Bytes → Option (Bytes × Bytes)
+  | 21 :: r => getTwoStrings r
+  | _ => none
+
+inductive SmartcardRes
+  | ok
+  /-- the agent answered with something other than success -/
+  | failure
+  /-- an empty reply -/
+  | empty
+  | connErr
+deriving Repr, DecidableEq
+
+def smartcardRes : Option Bytes → SmartcardRes
+  | none => .connErr
+  | some [] => .empty
+  | some (b :: _) => if b = 6 then .ok else .failure
+
+def addSmartcardKey (env : Env) (i : Nat) (id pin : Bytes) (lifetimeNonZero : Bool) (secs : Nat) (confirm : Bool) : SmartcardRes :=
+  smartcardRes (exchange env i (encAddSmartcard id pin lifetimeNonZero secs confirm))
+
+def removeSmartcardKey (env : Env) (i : Nat) (id pin : Bytes) : SmartcardRes :=
+  smartcardRes (exchange env i (encRemoveSmartcard id pin))
+
 /-! ### `(*server).ListSlots`: parsing the PIV tool's `-a status` output -/
 
 def slotPrefix : Bytes := b!"Slot"
